@@ -546,8 +546,35 @@ pub fn jsr_part_strategy() -> impl Strategy<Value = JsrPart> {
     proptest::bool::weighted(0.4),
     proptest::collection::vec(any::<u16>(), 0..=3),
     any::<bool>(),
+    proptest::bool::weighted(0.3),
   )
-    .prop_map(|(mut registry, imports, prefer_cached, cached_manifests, with_module_graph)| {
+    .prop_map(|(mut registry, imports, prefer_cached, cached_manifests, with_module_graph, shared_dep)| {
+      // every package entry imports the same specifier (one that fails when
+      // no npm resolver is configured) and the root imports every package:
+      // whose import the error names depends on the order the entrypoints
+      // are visited in
+      let mut extra_imports: Vec<Item> = Vec::new();
+      if shared_dep && registry.packages.len() >= 2 {
+        for p in registry.packages.iter_mut() {
+          for v in p.versions.iter_mut() {
+            if let Some(f) = v.files.get_mut("/mod.ts") {
+              f.items.insert(
+                0,
+                Item::Import {
+                  spec: "npm:pkg@1".into(),
+                  attr: None,
+                  types: None,
+                },
+              );
+            }
+          }
+          extra_imports.push(Item::Import {
+            spec: format!("jsr:{}@*", p.name),
+            attr: None,
+            types: None,
+          });
+        }
+      }
       if with_module_graph {
         for p in registry.packages.iter_mut() {
           for v in p.versions.iter_mut() {
@@ -566,6 +593,7 @@ pub fn jsr_part_strategy() -> impl Strategy<Value = JsrPart> {
             }
             item_of(&r, None)
           })
+          .chain(extra_imports)
           .collect(),
         prefer_cached,
         cached_manifests,
